@@ -97,15 +97,15 @@ CHECKS.update({
     "C14": {
         "variants": ["asan-ts"], "level": "exploration",
         "quick": T(20000, 45), "thorough": T(500000, 600),
-        "rule": "one run = real uid from {0, small, ~2^16, 2^31-1, 2^31, 2^32-2} with unrelated effective uid, a list of 1-200 decimal uids with near misses (uid+-1, decimal prefix/suffix, uid*10, the euid) and the uid at a seeded position or absent; only_uid:L, exclude_uid:L and only_root each judged, and only_uid/exclude_uid must disagree; "
+        "rule": "one run = real uid from {0, small, ~2^16, 2^31-1, 2^31, 2^32-2} with unrelated effective uid, a list of 1-200 decimal uids with near misses (uid+-1, decimal prefix/suffix, uid*10, the euid) and the uid at a seeded position or absent; only_uid:L, exclude_uid:L and only_root each judged, and only_uid/exclude_uid must disagree; in half of the runs the process then changes its real uid (Mutate) and makes the three calls again; "
                 "distinct = (uid class, list-size bucket, match position, uid==euid)",
-        "probes": ["uid_ge_2_31", "match_last_of_many", "near_miss_only"],
+        "probes": ["uid_ge_2_31", "match_last_of_many", "near_miss_only", "uid_changes_between_calls"],
         "assumptions": ["no schedule or fault dimension (weak fit); the simulated getuid() is what makes 2^32-2 and uid != euid reachable"],
     },
     "C15": {
         "variants": ["asan-ts"], "level": "exploration",
         "quick": T(20000, 45), "thorough": T(500000, 600),
-        "rule": "one run = simulated ancestor chain of depth 1-12 with awkward names (spaces, parentheses, 15 bytes, prefixes of each other), optionally an unreadable or vanished /proc/<pid>/stat at depth k, and a list of 1-50 names (duplicates, empty items) containing an ancestor's name, only the process's own name, a prefix/extension near miss, or none; "
+        "rule": "one run = simulated ancestor chain of depth 1-12 with awkward names (spaces, parentheses, 15 bytes, prefixes of each other), optionally an unreadable or vanished /proc/<pid>/stat at depth k, and a list of 1-50 names (duplicates, empty items) containing an ancestor's name, only the process's own name, a prefix/extension near miss, or none; one run in six puts two instances with different lists into one chain, one in six makes a second call after snoopy.ini was rewritten with another list; "
                 "distinct = (depth, mode, match position, failure depth)",
         "probes": ["match_deep", "self_only", "unreadable_before_match", "name_with_paren", "seven_digit_pids"],
     },
@@ -124,10 +124,10 @@ CHECKS.update({
     "C03": {
         "variants": ["asan-ts", "asan-nots"], "variant_share": {"asan-ts": 0.6, "asan-nots": 0.4}, "level": "fault_enumeration", "claims_sanitizer": True,
         "quick": T(40000, 60), "thorough": T(1200000, 900),
-        "rule": "seeds come in families of 400: slot 0 is the fault-free census of one wrapped call in a sampled (world, sink state, output, format) scenario; slots 1..n enumerate every single fault = (intercepted call of the census) x (plausible errno set of that call kind, plus short read/write and early EOF); remaining slots are sampled fault pairs. "
+        "rule": "seeds come in families of 400: slot 0 is the fault-free census of one wrapped call in a sampled (world, sink state, output, format) scenario; slots 1..n enumerate every single fault = (intercepted call of the census) x (plausible errno set of that call kind, plus short read/write and early EOF); remaining slots are sampled fault pairs; a faulted call that returns to its caller is followed by the same call without the fault (what the failure left behind must not stop the next exec). "
                 "Sink states: healthy, directory absent, EACCES, (nearly) full disk, socket path absent / refused / no permission / queue full and unread / stream-type. non-trivial = the fault fired inside the call (or census); distinct = (scenario, fault kind, n-th, errno)",
         "probes": ["census", "pair", "queue_full", "eagain_seen", "enospc"],
-        "extra_coverage": {"errno_sets": "open: ENOENT EACCES EMFILE ENFILE ENOMEM ELOOP ENOTDIR EISDIR EROFS ENXIO ENOSPC; read: EIO EINTR short eof; write: ENOSPC EIO EDQUOT EFBIG EINTR short; close: EIO ENOSPC; socket: EMFILE ENFILE ENOBUFS EAFNOSUPPORT ENOMEM EACCES; connect: ENOENT ECONNREFUSED EACCES EAGAIN EPROTOTYPE; send: EAGAIN ECONNREFUSED ENOTCONN EMSGSIZE ENOBUFS EPIPE ECONNRESET; stat ttyname_r getcwd gethostname getlogin_r getpwuid_r getgrgid_r time gettimeofday: their documented errors"},
+        "extra_coverage": {"errno_sets": "open: ENOENT EACCES EMFILE ENFILE ENOMEM ELOOP ENOTDIR EISDIR EROFS ENXIO ENOSPC; read: EIO EINTR short eof; write: ENOSPC EIO EDQUOT EFBIG EINTR short; close: EIO ENOSPC; socket: EMFILE ENFILE ENOBUFS EAFNOSUPPORT ENOMEM EACCES; connect: ENOENT ECONNREFUSED EACCES EAGAIN EPROTOTYPE; send: EAGAIN ECONNREFUSED ENOTCONN EMSGSIZE ENOBUFS EPIPE ECONNRESET; stat ttyname_r getcwd gethostname getlogin_r getpwuid_r getgrgid_r getutline_r time gettimeofday: their documented errors"},
     },
     "C16": {
         "variants": ["asan-ts", "asan-nots"], "level": "fault_enumeration",
